@@ -11,6 +11,9 @@
 //      concurrent const calls                                           -> #BAD const-call-modified-object.
 // The binary is built with -fsanitize=thread; TSAN_OPTIONS=halt_on_error=1:exitcode=66 makes any data race end
 // the process, which the orchestrator reports as a failing input together with the op that was executing.
+// Besides the per-class suites there are four suites for the code that depends on the DST size of GeodesicExact (area
+// computations on ONE shared exact solver with f = 3/4, -2, 9/10, where N = 48, 48, 96): GeodesicExact(eccentric),
+// GeodesicLineExact(eccentric), Geodesic(exact) [= Geodesic(a, f, exact = true)], GeodesicLine(exact).
 // "mt Singletons ..." must be the first op of a process: it touches WGS84()/UTM()/UPS()/OSGBTM()... for the
 // first time from all threads at once.
 #include "common.hpp"
@@ -156,6 +159,66 @@ template<class G, class L> static Suite mk_line(const char* cls, uint64_t seed, 
       S.add("Position#" + t, [=](Res& r) { double a = 1, b = 2, c = 3, m12 = 5, M12 = 6, M21 = 7, S12 = 8; double x = l->Position(s12, a, b, c, m12, M12, M21, S12); P(r, x); P(r, a); P(r, b); P(r, c); P(r, m12); P(r, M12); P(r, M21); P(r, S12); });
       S.add("ArcPosition#" + t, [=](Res& r) { double a = 1, b = 2, c = 3, s = 4, m12 = 5, M12 = 6, M21 = 7, S12 = 8; l->ArcPosition(a12, a, b, c, s, m12, M12, M21, S12); P(r, a); P(r, b); P(r, c); P(r, s); P(r, m12); P(r, M12); P(r, M21); P(r, S12); });
       S.add("GenPosition#" + t, [=](Res& r) { double a = 1, b = 2, c = 3, s = 4, m12 = 5, M12 = 6, M21 = 7, S12 = 8; double x = l->GenPosition(arcm, arcm ? a12 : s12, m, a, b, c, s, m12, M12, M21, S12); P(r, x); P(r, a); P(r, b); P(r, c); P(r, s); P(r, m12); P(r, M12); P(r, M21); P(r, S12); });
+    }
+    S.add("accessors#" + std::to_string(j), [=](Res& r) { P(r, l->Latitude()); P(r, l->Longitude()); P(r, l->Azimuth()); P(r, l->EquatorialAzimuth()); P(r, l->EquatorialArc()); P(r, l->Distance()); Pi(r, l->Capabilities()); });
+  }
+  return S;
+}
+// ---- strongly eccentric ellipsoids, area computations ----------------------------------------------------------
+// GeodesicExact computes the area term S12 with a discrete sine transform whose size N grows with the third flattening
+// (N = 6 for WGS84, N = 16 for f = 1/5, N > 32 for |n| >~ 0.45).  Everything that depends on N -- the FFT length, the
+// stage radices, any work space -- is reached only from calls that ask for AREA on such an ellipsoid, so the suites
+// below share ONE solver (resp. lines of one solver) with f in {3/4, -2, 9/10} and every call asks for AREA.
+// G = GeodesicExact, or Geodesic constructed with exact = true (the wrapper delegates to its GeodesicExact member).
+static Ell pickEcc(Rng& g) {
+  static const Ell all[] = {{Constants::WGS84_a(), 0.75}, {Constants::WGS84_a(), -2.0}, {Constants::WGS84_a(), 0.9}};    // n = 0.6, -0.5, 0.818
+  return all[g.next() % 3];
+}
+template<class G> struct LineOf { typedef GeodesicLineExact type; };
+template<> struct LineOf<Geodesic> { typedef GeodesicLine type; };
+template<class G> static G* newEcc(const Ell& e);
+template<> GeodesicExact* newEcc<GeodesicExact>(const Ell& e) { return new GeodesicExact(e.a, e.f); }
+template<> Geodesic* newEcc<Geodesic>(const Ell& e) { return new Geodesic(e.a, e.f, true); }
+// generic points, short and medium lines (no special symmetry is needed; these converge in a few iterations, so that the
+// time goes into the area terms)
+struct EccIn { double lat1, lon1, lat2, lon2, azi1, s12, a12; };
+static EccIn eccIn(Rng& g, int k) {
+  EccIn p; p.lat1 = g.range(-80, 80); p.lon1 = g.range(-180, 180); double d = (k % 3 == 0 ? 60 : 3);
+  p.lat2 = std::fmax(-89.0, std::fmin(89.0, p.lat1 + d * g.range(-0.5, 0.5))); p.lon2 = p.lon1 + d * g.range(-0.5, 0.5);
+  p.azi1 = g.range(-180, 180); p.s12 = g.range(1e4, 3e6); p.a12 = g.range(0.1, 40);
+  return p;
+}
+template<class G> static void ecc_geod_calls(Suite& S, Ref<G> geod, Rng& g, int n) {
+  typedef typename LineOf<G>::type L;
+  for (int k = 0; k < n; ++k) {
+    EccIn p = eccIn(g, k); unsigned m = gmask<G>(g) | G::AREA; bool arcm = g.coin(); std::string t = std::to_string(k);
+    S.add("GenInverse[AREA]#" + t, [=](Res& r) { double s = 4, a1 = 1, a2 = 2, m12 = 5, M12 = 6, M21 = 7, S12 = 8; double x = geod->GenInverse(p.lat1, p.lon1, p.lat2, p.lon2, m, s, a1, a2, m12, M12, M21, S12); P(r, x); P(r, s); P(r, a1); P(r, a2); P(r, m12); P(r, M12); P(r, M21); P(r, S12); });
+    S.add("Line[AREA]+GenPosition[AREA]#" + t, [=](Res& r) { L l = geod->Line(p.lat1, p.lon1, p.azi1, m | G::DISTANCE_IN); double a = 1, b = 2, c = 3, s = 4, m12 = 5, M12 = 6, M21 = 7, S12 = 8; double x = l.GenPosition(arcm, arcm ? p.a12 : p.s12, m, a, b, c, s, m12, M12, M21, S12); P(r, x); P(r, a); P(r, b); P(r, c); P(r, s); P(r, m12); P(r, M12); P(r, M21); P(r, S12); });
+    if (k % 2 == 0) S.add("GenDirect[AREA]#" + t, [=](Res& r) { double a = 1, b = 2, c = 3, s = 4, m12 = 5, M12 = 6, M21 = 7, S12 = 8; double x = geod->GenDirect(p.lat1, p.lon1, p.azi1, arcm, arcm ? p.a12 : p.s12, m, a, b, c, s, m12, M12, M21, S12); P(r, x); P(r, a); P(r, b); P(r, c); P(r, s); P(r, m12); P(r, M12); P(r, M21); P(r, S12); });
+    else S.add("Inverse[S12]#" + t, [=](Res& r) { double s, a1, a2, m12, M12, M21, S12; double x = geod->Inverse(p.lat1, p.lon1, p.lat2, p.lon2, s, a1, a2, m12, M12, M21, S12); P(r, x); P(r, s); P(r, a1); P(r, a2); P(r, S12); });
+  }
+  S.add("EllipsoidArea", [=](Res& r) { P(r, geod->EllipsoidArea()); P(r, geod->EquatorialRadius()); P(r, geod->Flattening()); });
+}
+template<class G> static Suite mk_ecc_geodesic(const char* cls, uint64_t seed, bool) {
+  Suite S; S.cls = cls; Rng g(seed); Ell e = pickEcc(g);
+  auto gp = S.own(newEcc<G>(e));
+  ecc_geod_calls<G>(S, mkref(gp), g, 8);
+  return S;
+}
+// shared lines of ONE solver (the lines hold copies of the solver's transform object); GenPosition with AREA on the shared
+// lines, and new lines with the AREA capability made from the solver the shared lines came from
+template<class G> static Suite mk_ecc_line(const char* cls, uint64_t seed, bool) {
+  typedef typename LineOf<G>::type L;
+  Suite S; S.cls = cls; Rng g(seed); Ell e = pickEcc(g);
+  auto gp = S.own(newEcc<G>(e)); const G* geod = gp.get();
+  for (int j = 0; j < 2; ++j) {
+    EccIn q = eccIn(g, j);
+    auto lp = S.own(new L(geod->Line(q.lat1, q.lon1, q.azi1, j ? unsigned(G::ALL) : (gmask<G>(g) | G::AREA | G::DISTANCE_IN)))); const L* l = lp.get();
+    for (int k = 0; k < 6; ++k) {
+      EccIn p = eccIn(g, k); unsigned m = gmask<G>(g) | G::AREA; bool arcm = g.coin(); std::string t = std::to_string(j) + "." + std::to_string(k);
+      S.add("GenPosition[AREA]#" + t, [=](Res& r) { double a = 1, b = 2, c = 3, s = 4, m12 = 5, M12 = 6, M21 = 7, S12 = 8; double x = l->GenPosition(arcm, arcm ? p.a12 : p.s12, m, a, b, c, s, m12, M12, M21, S12); P(r, x); P(r, a); P(r, b); P(r, c); P(r, s); P(r, m12); P(r, M12); P(r, M21); P(r, S12); });
+      if (k < 3) S.add("Position[S12]#" + t, [=](Res& r) { double a = 1, b = 2, c = 3, m12 = 5, M12 = 6, M21 = 7, S12 = 8; double x = l->Position(p.s12, a, b, c, m12, M12, M21, S12); P(r, x); P(r, a); P(r, b); P(r, c); P(r, S12); });
+      if (k < 3) S.add("new-line[AREA]+GenPosition[AREA]#" + t, [=](Res& r) { L n = geod->Line(p.lat1, p.lon1, p.azi1, m | G::DISTANCE_IN); double a = 1, b = 2, c = 3, s = 4, m12 = 5, M12 = 6, M21 = 7, S12 = 8; double x = n.GenPosition(arcm, arcm ? p.a12 : p.s12, m, a, b, c, s, m12, M12, M21, S12); P(r, x); P(r, a); P(r, b); P(r, S12); });
     }
     S.add("accessors#" + std::to_string(j), [=](Res& r) { P(r, l->Latitude()); P(r, l->Longitude()); P(r, l->Azimuth()); P(r, l->EquatorialAzimuth()); P(r, l->EquatorialArc()); P(r, l->Distance()); Pi(r, l->Capabilities()); });
   }
@@ -531,6 +594,11 @@ static std::vector<std::pair<std::string, Maker>>& suites() {
     {"GeodesicExact", [](uint64_t s, bool f) { return mk_geodesic<GeodesicExact>("GeodesicExact", s, f); }},
     {"GeodesicLine", [](uint64_t s, bool f) { return mk_line<Geodesic, GeodesicLine>("GeodesicLine", s, f); }},
     {"GeodesicLineExact", [](uint64_t s, bool f) { return mk_line<GeodesicExact, GeodesicLineExact>("GeodesicLineExact", s, f); }},
+    // area computations on strongly eccentric ellipsoids (DST size N > 32): GeodesicExact, the Geodesic wrapper with exact = true, and their lines
+    {"GeodesicExact(eccentric)", [](uint64_t s, bool f) { return mk_ecc_geodesic<GeodesicExact>("GeodesicExact(eccentric)", s, f); }},
+    {"GeodesicLineExact(eccentric)", [](uint64_t s, bool f) { return mk_ecc_line<GeodesicExact>("GeodesicLineExact(eccentric)", s, f); }},
+    {"Geodesic(exact)", [](uint64_t s, bool f) { return mk_ecc_geodesic<Geodesic>("Geodesic(exact)", s, f); }},
+    {"GeodesicLine(exact)", [](uint64_t s, bool f) { return mk_ecc_line<Geodesic>("GeodesicLine(exact)", s, f); }},
     {"Rhumb", [](uint64_t s, bool f) { return mk_rhumb("Rhumb", false, s, f); }},
     {"Rhumb(exact)", [](uint64_t s, bool f) { return mk_rhumb("Rhumb(exact)", true, s, f); }},
     {"RhumbLine", mk_rhumbline},
